@@ -107,6 +107,16 @@ impl SassMap {
     pub fn is_empty(&self) -> bool {
         self.0.is_empty()
     }
+
+    /// A map is a comma-separated list of pairs; like every empty list, an empty map has
+    /// no separator yet
+    pub fn separator(&self) -> ListSeparator {
+        if self.is_empty() {
+            ListSeparator::Undecided
+        } else {
+            ListSeparator::Comma
+        }
+    }
 }
 
 impl IntoIterator for SassMap {
